@@ -172,20 +172,40 @@ def r06b_impl(model: Model, rr: RuleResult):
         rr.ok("reuse wrapper is returned only under fixed_safe of the transform applied to the gradient")
         rr.ok("(no flag variable)")
     else:
-        rr.bad_shape(wf, rr_ret[0], "the reuse wrapper is returned although the counter-transform of the gradient may overflow", construct="reuse return not guarded by `not overflows`")
+        # no flag, no dominating test: positive evidence when the fixed_safe test of the applied transform exists and its failing edge still reaches the reuse return
+        escaped = False
+        for n_ in walk_body(wf):
+            if isinstance(n_, ast.If) and applied and f"fixed_safe(*{applied})" in norm(n_.test).replace("not ", ""):
+                tn = wcfg.node_for(n_)
+                neg = isinstance(n_.test, ast.UnaryOp) and isinstance(n_.test.op, ast.Not)
+                fail_lab = "T" if neg else "F"
+                for t_, lab in wcfg.nodes[tn].succs:
+                    if lab == fail_lab and (t_ == rn or rn in wcfg.reachable_from(t_)):
+                        escaped = True
+        if escaped:
+            rr.bad(wf, rr_ret[0], "the reuse wrapper is returned although the counter-transform of the gradient may overflow", construct="reuse return not guarded by `not overflows`")
+        else:
+            rr.bad_shape(wf, rr_ret[0], "the reuse wrapper is returned although the counter-transform of the gradient may overflow", construct="reuse return not guarded by `not overflows`")
     # OverflowError fallback wraps with the same transform
     handlers = [h for n in walk_body(wf) if isinstance(n, ast.Try) for h in n.handlers]
     good = False
+    other = None
     for h in handlers:
         if h.type is not None and "OverflowError" in norm(h.type):
             for st in h.body:
-                if isinstance(st, ast.Assign) and isinstance(st.value, ast.Call) and norm(st.value.func) == "transformed" and at_calls \
-                        and norm(st.value.args[0]) == norm(at_calls[0].args[0]) and norm(st.value.args[1]) == norm(st.targets[0]):
-                    good = True
+                if isinstance(st, ast.Assign) and isinstance(st.value, ast.Call) and norm(st.value.func) == "transformed" and at_calls and len(st.value.args) == 2 \
+                        and norm(st.value.args[1]) == norm(st.targets[0]):
+                    if norm(st.value.args[0]) == norm(at_calls[0].args[0]):
+                        good = True
+                    else:
+                        other = st
     if good:
         rr.ok("OverflowError fallback: child_paint = transformed(transform, child_paint) with the same transform")
+    elif other is not None:
+        rr.bad(wf, other, f"the OverflowError fallback wraps the untouched gradient in {short(other.value.args[0], 60)}, not in the counter-transform {short(at_calls[0].args[0], 60)} "
+               f"that apply_transform was asked for", construct="_update_paint_glyph: except OverflowError")
     else:
-        rr.bad(wf, wf.node, "the OverflowError fallback does not wrap the untouched gradient in the same counter-transform", construct="_update_paint_glyph: except OverflowError")
+        rr.bad_shape(wf, wf.node, "the OverflowError fallback does not wrap the untouched gradient in the same counter-transform", construct="_update_paint_glyph: except OverflowError")
     # when reuse is abandoned the shape is emitted un-reused
     cg = find_calls(wf, "_create_glyph")
     if len(cg) == 1:
@@ -194,7 +214,7 @@ def r06b_impl(model: Model, rr: RuleResult):
         if tests and wcfg.path_exists(wcfg.node_for(tests[0]), wcfg.node_for(cg[0]), avoid={rn}):
             rr.ok("abandoned reuse falls through to _create_glyph (shape emitted un-reused)")
         else:
-            rr.bad(wf, wf.node, "when reuse is abandoned control does not reach the un-reused emission", construct="_update_paint_glyph: fall-through")
+            rr.bad_shape(wf, wf.node, "when reuse is abandoned control does not reach the un-reused emission", construct="_update_paint_glyph: fall-through")
     san = [st for st in walk_body(wf) if isinstance(st, ast.Assert) and "fixed_safe(*reuse_result.transform)" in norm(st.test)]
     if san:
         rr.ok("sanity assertion fixed_safe(*reuse_result.transform) present")
@@ -349,8 +369,24 @@ def r19b(model: Model, rr: RuleResult):
                ("paint.format != PaintGlyph.format", False), ("paint.format == PaintGlyph.format", True),
                ("glyph_cache.is_known_glyph(paint.glyph)", False)}
     extra = [f for f in facts if f not in allowed]
+    # a condition on a value that a function the reference tree does not have computed cannot be judged here (the overflow test may have moved there)
+    from ..report import CURRENT_DRIFT as _CD
+    via_new = False
+    for e, pol in rawf:
+        if (norm(e), pol) not in extra:
+            continue
+        for nm in names_in(e):
+            for d in cfg.reaching(cfg.node_for(rets[0]), nm):
+                if d.value is not None:
+                    for c_ in ast.walk(d.value):
+                        if isinstance(c_, ast.Call):
+                            cal = model.resolve_call(wf, c_)
+                            if cal is not None and _CD.get(cal.fq, 0) is None:
+                                via_new = True
     if not extra:
         rr.ok("COLR: between 'a donor exists' and the reuse wrapper the only blocking condition is `overflows`")
+    elif via_new:
+        rr.shape(wf, rets[0], f"reuse is additionally blocked by {extra}, a condition on the result of a function the reference tree does not have", construct=f"reuse return under {extra}")
     else:
         rr.bad(wf, rets[0], f"reuse is additionally blocked by {extra}: congruent copies would be stored separately", construct=f"reuse return under {extra}")
     # try_reuse is consulted for every path that is not already a glyph
